@@ -61,24 +61,33 @@ fn normalise(r: &[u8]) -> (String, Vec<u8>) {
             }
             ("dns".into(), out)
         }
-        Some(App::Smb1) => {
+        Some(a @ App::Smb1) | Some(a @ App::Smb2) => {
+            // every NetBIOS message of the payload (a segment holding several requests may be
+            // answered with several responses): the wall-clock fields of negotiate responses
             let mut o = r.to_vec();
-            // negotiate response: SystemTime
-            if o.len() >= 68 && o[8] == 0x72 {
-                for b in o[60..68].iter_mut() {
-                    *b = 0;
+            let mut at = 0;
+            while at + 8 <= o.len() && o[at] == 0 {
+                let n = ((o[at + 1] as usize & 1) << 16) | ((o[at + 2] as usize) << 8) | o[at + 3] as usize;
+                let end = (at + 4 + n).min(o.len());
+                let m = &mut o[at..end];
+                if m.len() >= 68 && &m[4..8] == b"\xffSMB" && m[8] == 0x72 {
+                    // SMB1 negotiate response: SystemTime
+                    for b in m[60..68].iter_mut() {
+                        *b = 0;
+                    }
                 }
-            }
-            ("smb1".into(), o)
-        }
-        Some(App::Smb2) => {
-            let mut o = r.to_vec();
-            if o.len() >= 124 && o[16] == 0 && o[17] == 0 {
-                for b in o[108..124].iter_mut() {
-                    *b = 0;
+                if m.len() >= 124 && &m[4..8] == b"\xfeSMB" && m[16] == 0 && m[17] == 0 {
+                    // SMB2 negotiate response: SystemTime, ServerStartTime
+                    for b in m[108..124].iter_mut() {
+                        *b = 0;
+                    }
                 }
+                if end <= at {
+                    break;
+                }
+                at = end;
             }
-            ("smb2".into(), o)
+            (if a == App::Smb1 { "smb1" } else { "smb2" }.into(), o)
         }
         Some(App::Ssh) => ("ssh".into(), r.to_vec()),
         Some(App::Ghost) => ("ghost".into(), r.to_vec()),
